@@ -537,6 +537,20 @@ class Macro(Element):
                 self.counter = ''
             self.refstepcounter(tex)
 
+    @property
+    def numbered(self):
+        """
+        Is this object numbered?
+
+        Sectioning commands deeper than the `sec-num-depth` setting
+        neither print a number nor step their counter (like LaTeX's
+        `secnumdepth`); everything else is always numbered.
+
+        """
+        try: secnumdepth = self.config['document']['sec-num-depth']
+        except: secnumdepth = 10
+        return secnumdepth >= self.level or self.level > self.ENDSECTIONS_LEVEL
+
     def stepcounter(self, tex):
         """
         Increment the counter for the object (if one exists)
@@ -545,7 +559,7 @@ class Macro(Element):
         tex -- the TeX instance containing the current context
 
         """
-        if self.counter:
+        if self.counter and self.numbered:
             try:
                 self.ownerDocument.context.counters[self.counter].stepcounter()
             except KeyError:
@@ -575,12 +589,9 @@ class Macro(Element):
         tex -- the TeX instance containing the current context
 
         """
-        if self.counter:
-            try: secnumdepth = self.config['document']['sec-num-depth']
-            except: secnumdepth = 10
-            if secnumdepth >= self.level or self.level > self.ENDSECTIONS_LEVEL:
-                self.ref = self.ownerDocument.createElement('the' + self.counter).expand(tex)
-                self.captionName = self.ownerDocument.createElement(self.counter + 'name').expand(tex)
+        if self.counter and self.numbered:
+            self.ref = self.ownerDocument.createElement('the' + self.counter).expand(tex)
+            self.captionName = self.ownerDocument.createElement(self.counter + 'name').expand(tex)
 
     @property
     def arguments(self):
